@@ -57,6 +57,29 @@ func skGen(r *rand.Rand, iterMode bool) *skInput {
 		nk = 3 + r.Intn(2)
 		in.Sticky = []int{0, 20, 40}[r.Intn(3)]
 	}
+	// flavour "pile-up": every key present, each goroutine deletes one key (neighbours get marked
+	// together, the stall heuristic keeps them from unlinking) and then looks at / re-inserts a key
+	// that somebody deletes
+	if crowded && r.Intn(2) == 0 {
+		nt, nk = 4, 3+r.Intn(2)
+		in.Stall = true
+		var prog0 []skOp
+		for k := 1; k <= nk; k++ {
+			prog0 = append(prog0, skOp{Op: "ins", K: 10 * k, Want: lev()})
+		}
+		in.Progs = append(in.Progs, prog0)
+		first := r.Intn(nk)
+		for t := 1; t < nt; t++ {
+			victim := 10 * (1 + (first+nk-(t-1))%nk) // descending neighbours
+			prog := []skOp{{Op: "del", K: victim}}
+			if r.Intn(3) > 0 {
+				again := 10 * (1 + (first+nk-r.Intn(nt-1))%nk)
+				prog = append(prog, skOp{Op: []string{"ins", "ins", "look"}[r.Intn(3)], K: again, Want: lev()})
+			}
+			in.Progs = append(in.Progs, prog)
+		}
+		return in
+	}
 	for t := 0; t < nt; t++ {
 		var prog []skOp
 		m := 1 + r.Intn(3)
@@ -248,7 +271,39 @@ func skRun(in *skInput, sink *CaseSink, prop string) {
 	}
 	r := rand.New(rand.NewSource(in.Seed))
 	var chooser func([]int) int
-	if len(in.Choices) > 0 {
+	if skCoarse != nil {
+		// systematic mode: thread 0 (the build phase) runs first; afterwards the running goroutine is
+		// switched only where the enumeration decides, and it is asked only at operation boundaries
+		// and right after a delete mark was set (label SdLoad following SdCas)
+		last := -1
+		skDecisions, skDecEnabled = nil, nil
+		chooser = func(en []int) int {
+			has := func(t int) bool {
+				for _, e := range en {
+					if e == t {
+						return true
+					}
+				}
+				return false
+			}
+			if has(0) {
+				return 0
+			}
+			if last >= 0 && has(last) {
+				n := len(sch.Trace)
+				atSwitch := n > 0 && sch.Trace[n-1][0] == last && (sch.Trace[n-1][1] == 0 ||
+					(n > 1 && sch.Trace[n-1][1] == skiplist.VerifPtSdLoad && sch.Trace[n-2][1] == skiplist.VerifPtSdCas && sch.Trace[n-2][0] == last))
+				if !atSwitch {
+					return last
+				}
+			}
+			c := skCoarse(en)
+			skDecisions = append(skDecisions, c)
+			skDecEnabled = append(skDecEnabled, append([]int(nil), en...))
+			last = c
+			return c
+		}
+	} else if len(in.Choices) > 0 {
 		chooser = replayChooser(in.Choices)
 	} else {
 		chooser = randomChooser(r, in.Sticky)
@@ -558,6 +613,59 @@ func skStructure(sl *skiplist.Skiplist, dist []int64, soft int64, nodeCount int6
 	return "", ""
 }
 
+// systematic exploration (skip-exh): decision chooser supplied by Explore, and what it decided
+var skCoarse func([]int) int
+var skDecisions []int
+var skDecEnabled [][]int
+
+func skExhCommand(a runArgs) error {
+	sink := NewSink(a.out, "C13", "Tie.SkipTie", a.seed)
+	sink.scope = "nat_scope"
+	sink.perFile = 40
+	sink.meta.Rule = "SYSTEMATIC: pile-up programs (3..4 keys built by goroutine 0, then three goroutines each deleting one of neighbouring keys and possibly re-inserting or looking up a deleted key): every schedule in which the running goroutine changes only at operation boundaries and right after a delete mark has been set is executed (depth-first, capped per program) and replayed on the model step by step; oracles as skip; non-trivial = at least two switches away from a goroutine that had just marked a node"
+	top := rand.New(rand.NewSource(a.seed))
+	total := 0
+	for p := 0; p < a.n; p++ {
+		var base *skInput
+		if p == 0 {
+			// the canonical pile-up
+			base = &skInput{Progs: [][]skOp{
+				{{Op: "ins", K: 10}, {Op: "ins", K: 20}, {Op: "ins", K: 30}},
+				{{Op: "del", K: 30}, {Op: "ins", K: 30}},
+				{{Op: "del", K: 20}},
+				{{Op: "del", K: 10}}}}
+		} else {
+			for {
+				base = skGen(top, false)
+				if len(base.Progs) == 4 && base.Stall && len(base.Progs[0]) >= 3 && len(base.Progs[1]) <= 2 {
+					tall := false
+					for _, o := range base.Progs[0] {
+						if o.Want > 1 {
+							tall = true
+						}
+					}
+					if !tall {
+						break
+					}
+				}
+			}
+			base.Stall = false
+		}
+		base.MM = p%3 == 2
+		runs := Explore(12, 2500, func(ch func([]int) int) ([]int, [][]int) {
+			in := *base
+			in.Choices = nil
+			skCoarse = ch
+			skRun(&in, sink, "C13")
+			skCoarse = nil
+			return skDecisions, skDecEnabled
+		})
+		total += runs
+	}
+	sink.meta.Extra = map[string]interface{}{"programs": a.n, "schedules": total}
+	return sink.Flush()
+}
+
 func skCommand(prop string, iterMode bool, rule string) func(a runArgs) error {
 	return func(a runArgs) error {
 		sink := NewSink(a.out, prop, "Tie.SkipTie", a.seed)
@@ -591,5 +699,6 @@ func skCommand(prop string, iterMode bool, rule string) func(a runArgs) error {
 
 func init() {
 	commands["skip"] = skCommand("C13", false, "2..4 goroutines on one skiplist (Go-managed and user-managed node memory), programs of 1..3 Insert (scripted level 0..3)/Delete/DeleteNode/Lookup over 2..4 keys after a short build phase, random schedules (stickiness 0/30/60/85%) parking before EVERY atomic access of findPath, Insert4, softDelete and NewLevel; after each step the label and the level-0 chain with marks are compared with the model, at the end all levels, results and statistics; oracle: brute-force linearizability of the call/return history + structural walk; non-trivial = >=2 preemptions inside operations and >=3 completed ops")
+	commands["skip-exh"] = skExhCommand
 	commands["skip-iter"] = skCommand("C15", true, "as skip, with one goroutine running SeekFirst/Seek + Next... on the list while the others insert and delete (including the node it stands on and its predecessor); oracle additionally: the iterator never goes backwards")
 }
